@@ -266,10 +266,10 @@ def compare_class(prog, cls):
                          "the 2-byte length prefix is %s but the bytes appended after it are %s: the prefix does not count the bytes that follow" % (
                              it["text"], _describe(tgt)))
                 continue
-            if f is None:
-                continue
             if it["kind"] == "byte" and isinstance(it["v"], tuple) and it["v"][0] == "bits":
                 _compare_bits(it, dec, ren, note, header=False)
+                continue
+            if f is None:
                 continue
             reads = dfr.get(f, [])
             if not reads:
@@ -364,11 +364,26 @@ def _compare_bits(it, dec, ren, note, header):
         w = (m >> sh)
         contiguous = m != 0 and (m & ((1 << sh) - 1)) == 0 and (w & (w + 1)) == 0
         value_shift_ok = r["shift"] == sh or r["cmp"] is not None
-        if not contiguous or not value_shift_ok or (r["cmp"] is not None and r["cmp"][1] not in (0, m, True, False)):
+        cmp_ok = True
+        if r["cmp"] is not None:
+            c = r["cmp"][1]
+            # a comparison decides the flag only against nothing (0), against every bit of the mask, or against a truth value
+            cmp_ok = isinstance(c, bool) or (isinstance(c, int) and c in (0, m >> r["shift"] if r["shift"] else m))
+        if not contiguous or not value_shift_ok or not cmp_ok:
             note("L4", "flag[%s]" % f, "self.%s is written at bit %d (shift %d) but read with mask 0x%02x, shift %d%s" % (
                 f, sh, sh, m, r["shift"], ", compared with %r" % (r["cmp"][1],) if r["cmp"] else ""), r.get("node"))
+        foreign = []
+        for d2, sh2, g2 in it["v"][2]:
+            if not isinstance(sh2, int) or (sh2 == sh and src_field(d2) == f):
+                continue
+            bits2 = (d2[1] << sh2) if isinstance(d2, tuple) and d2[0] == "const" and isinstance(d2[1], int) else (1 << sh2)
+            foreign += [b for b in range(8) if (bits2 >> b) & 1 and (m >> b) & 1]
+        foreign += [b for b in range(8) if isinstance(it["v"][1], int) and (it["v"][1] >> b) & 1 and (m >> b) & 1]
         if used & m:
             note("L4", "flag-overlap[%s]" % f, "mask 0x%02x of self.%s overlaps another field of the same byte" % (m, f))
+        elif foreign:
+            note("L4", "flag-overlap[%s]" % f, "mask 0x%02x of self.%s includes bit %s, where the encoder writes something else" % (
+                m, f, ", ".join(str(x) for x in sorted(set(foreign)))), r.get("node"))
         used |= m
 
 
